@@ -107,10 +107,10 @@ claim("C02",
       "End-to-end file-level theorem pending (see evidence.stated_not_proved); kernel write ordering is assumed as the property states.",
       "Coq proof (torn-write case analysis on the frame/record reader) + checked model/code correspondence + crash-image oracle")
 claim("C03",
-      "Coq theorems (PropC03.v, event-trace level): every call that persists with FlushAndFsync (create_queue/delete_queue under any policy, append/truncate under Always(FlushAndFsync), explicit persist) "
-      "leaves every write ever made followed by a sync of its file and nothing buffered; in the power-loss model a loss at any later point keeps that whole prefix; Always(Flush)/persist(Flush) leave nothing in the "
-      "user-space buffer; all files but the current one are always synced (roll-over syncs before leaving); every unlink of the GC comes after flush + sync_data + sync_dir with nothing buffered and no write in "
-      "between, for whole histories; open establishes the invariants. What recovery makes of the surviving bytes is decided by the checked correspondence on process-crash and power-loss images under every policy "
-      "and an oracle computing the persist point from the property's definition.",
-      "Power loss: metadata taken as immediately durable (worst case for unlink-before-sync); the end-to-end statement through open is not yet one theorem (see evidence.stated_not_proved).",
-      "Coq proof (trace invariants preserved by every call) + checked model/code correspondence + persist-point oracle on crash/power-loss images")
+      "Coq theorems (PropC03.v). Process-crash model, END TO END under EVERY policy: C03_process_crash - from a persist point (nothing buffered) followed by any further history under any policy, every "
+      "crash image of what had reached the OS opens successfully to the abstract state after some prefix of that history (never older than the persist point, never a mixture), roll-overs, multi-file entries, "
+      "GC and a crash among the unlinks included; C03_persisted_survives - a call that left nothing buffered cannot be undone by any later crash. Power-loss model, event-trace level: FlushAndFsync leaves every "
+      "write synced, the power-loss filter keeps the synced prefix, every unlink comes after flush + sync_data + sync_dir with no write in between. What recovery makes of a power-loss image is decided by the "
+      "checked correspondence on power-loss images under every policy and the persist-point oracle.",
+      "Premises: global invariant, well-formed calls, everything below 2^64 files, no_zero_collision (the property's CRC-collision proviso; satisfiable). Power loss: metadata taken as immediately durable.",
+      "Coq proof (trace shape with buffering, crash-image shape, open on torn streams, induction over persist points) + checked model/code correspondence + persist-point oracle on crash/power-loss images")
